@@ -1,7 +1,7 @@
 (* Witnesses for the known findings of C01 (known_findings/C01.json): the full statement is false on these inputs.
    Each is the negation of the conclusion of a C01 theorem on a concrete typed input; computed by vm_compute. *)
 Require Import PonyV.Base.PyBase PonyV.Model.C01Expr PonyV.Model.C01Sql PonyV.Model.C01Translate PonyV.Model.C01Safe
-               PonyV.Model.C01Eqb PonyV.Model.C01Query PonyV.Model.C01Join PonyV.Model.C01Coll.
+               PonyV.Model.C01Eqb PonyV.Model.C01Query PonyV.Model.C01Join PonyV.Model.C01Coll PonyV.Model.C01Aggr.
 
 Definition fa := mkattr 1 TInt true.
 Definition fb := mkattr 2 TInt true.
@@ -56,7 +56,7 @@ Print Assumptions C01_refuted_not_over_truth_test_is_outside_pos_ok.
 Definition jp (id : Z) (grp : pyv) : C01Join.row := row_of [(0, PInt id); (8, grp); (3, PInt 0); (5, PStr [97%Z]); (7, PBool true)]%nat.
 Definition jg : C01Join.row := row_of [(0, PInt 1); (1, PInt 0)]%nat.        (* G[1]: number = 0 *)
 Definition jdb1 : jdb := mkjdb [jp 1 (PInt 1); jp 2 PNone] [jg] [].
-Definition group_id := mkattr 8 TInt true.
+Definition group_id := mkattr 8 TInt false.     (* G's primary key read from the column p.group: the AttrMonad of a primary key is not nullable *)
 Definition group_number := mkattr 11 TInt false.
 
 (* select(p.id for p in P if p.group is None or p.group.number > 1): Python keeps the object without a group (the `or`
@@ -87,6 +87,21 @@ Theorem C01_refuted_left_join_required_attribute_through_none_reference :
 Proof. cbv zeta. repeat split; try reflexivity. intros d H; destruct d; try discriminate H; do 2 eexists; repeat split; reflexivity. Qed.
 Print Assumptions C01_refuted_left_join_required_attribute_through_none_reference.
 
+(* select(p.id for p in P if not p.group.id): p.group.id is G's primary key, read from the foreign key column p.group without a
+   join; the AttrMonad is the primary key's (not nullable), so `not` becomes `p.group = 0` without the IS NULL disjunct and the
+   object without a group is dropped by select() and left_join() alike, while Python (None propagation: not None) keeps it *)
+Theorem C01_refuted_pk_of_none_reference_is_marked_not_nullable :
+  let filt := ENot (EAttr group_id) in let proj := EAttr (mkattr 0 TInt false) in
+  ty_of filt = Some TCond /\ depth_of [filt; proj] = 0%nat /\
+  py_join_rows false filt proj (fun _ => PNone) jdb1 = [PInt 2] /\
+  env_ok (penv (fun _ => PNone) (flat jdb1 (jp 2 PNone))) filt = false /\
+  forall d, modelled d = true ->
+    exists conds q, tr_filter d filt = Some conds /\ tr_project d proj = Some q /\
+      sql_join_rows d JInner 0 false conds q (fun _ => PNone) jdb1 = [] /\
+      sql_join_rows d JLeft 0 false conds q (fun _ => PNone) jdb1 = [].
+Proof. cbv zeta. repeat split; try reflexivity. intros d H; destruct d; try discriminate H; do 2 eexists; repeat split; reflexivity. Qed.
+Print Assumptions C01_refuted_pk_of_none_reference_is_marked_not_nullable.
+
 (* ------------------------------------------------------------------------------------------- to-many collections *)
 (* select(g.id for g in G if not (g.level in (m.a for m in g.members))) on a group whose only member has a = None, level = 3:
    `g.level not in (...)` gets `AND m.a IS NOT NULL` in the subquery and keeps the group (3 is not among the values), but the
@@ -104,3 +119,16 @@ Theorem C01_refuted_not_over_in_collection_lacks_null_check :
       xtruth d (fun _ => PNone) db g c1 = true /\ xtruth d (fun _ => PNone) db g c2 = false.
 Proof. cbv zeta. repeat split; try reflexivity. intros d H; destruct d; try discriminate H; do 2 eexists; repeat split; reflexivity. Qed.
 Print Assumptions C01_refuted_not_over_in_collection_lacks_null_check.
+
+(* ------------------------------------------------------------------------------------------- aggregates *)
+(* select(sum(p.f) for p in P) over three rows with f = True: the database returns 3, but the result type of the aggregate is the
+   argument's (bool), so the bool converter turns it into True; Python's sum gives 3 *)
+Theorem C01_refuted_sum_of_booleans_is_returned_as_bool :
+  let f := mkattr 6 TBool true in let g := GAgg FSum false (EAttr f) in
+  let r (id : Z) := mkenv (fun i => match i with 0%nat => PInt id | 6%nat => PBool true | _ => PNone end) (fun _ => PNone) in
+  let table := [r 1; r 2; r 3] in
+  py_aggr g None table = AVal (PInt 3) /\ aggr_safe DSqlite g = false /\
+  exists qa, tr_aggr DSqlite 0%nat g = Some qa /\ sql_aggr DSqlite qa [] table = IntV 3 /\
+             deca_g g (sql_aggr DSqlite qa [] table) = AVal (PBool true).
+Proof. cbv zeta. repeat split; try reflexivity. eexists. repeat split; reflexivity. Qed.
+Print Assumptions C01_refuted_sum_of_booleans_is_returned_as_bool.
